@@ -219,8 +219,12 @@ def run(ctx):
       continue
     if q and (t not in sel_quick or c['K'] != (4 if t[0] in (1, 2, 4) else 3)):
       continue
-    c['model'] = (t in model_quick) if q else (c['K'] % t[0] == 0 and t[1] * t[2] <= 4)
+    if not c['spans'] and (q or t[1] * t[2] > 2) and any(d['spans'] and d['mesh'] == c['mesh'] and d['M'] != c['M'] for d in meshes):
+      continue      # the small grid (all data on the first shard) only where it is cheap; the spanning grid always
+    c['model'] = ((t in model_quick) if q else (c['K'] % t[0] == 0 and t[1] * t[2] <= 4)) and c['M'] <= 12
     chosen.append(c)
+  if not all(c['spans'] for c in chosen if c['mesh'][1] * c['mesh'][2] > 1 and q):
+    raise common.MachineryError('quick tier: a horizontally sharded mesh without data on every shard was chosen')
   res = common.parallel_map('c07', 'replay_einsum', ein, nproc=2, env=ENV8, tag='ein', outdir=os.path.join(ctx.out, 'par'))
   res += common.parallel_map('c07', 'replay_mesh', chosen, nproc=3 if q else 4, env=ENV8, tag='mesh',
                              outdir=os.path.join(ctx.out, 'par'), timeout=7200)
